@@ -47,6 +47,7 @@ func (h *NFSProcedureHandler) handleLookup(body io.Reader, reply *RPCReply, auth
 		}
 		nodeAttrsCopy := *node.attrs
 		node.mu.RUnlock()
+		h.refreshDirAttrs(node, &nodeAttrsCopy)
 		var buf bytes.Buffer
 		xdrEncodeUint32(&buf, NFSERR_NOTDIR)
 		xdrEncodeUint32(&buf, 1)
@@ -75,6 +76,7 @@ func (h *NFSProcedureHandler) handleLookup(body io.Reader, reply *RPCReply, auth
 		}
 		nodeAttrsCopy := *node.attrs
 		node.mu.RUnlock()
+		h.refreshDirAttrs(node, &nodeAttrsCopy)
 		var buf bytes.Buffer
 		xdrEncodeUint32(&buf, mapError(err))
 		xdrEncodeUint32(&buf, 1)
@@ -97,6 +99,7 @@ func (h *NFSProcedureHandler) handleLookup(body io.Reader, reply *RPCReply, auth
 	node.mu.RLock()
 	nodeAttrsCopy := *node.attrs
 	node.mu.RUnlock()
+	h.refreshDirAttrs(node, &nodeAttrsCopy)
 
 	var buf bytes.Buffer
 	xdrEncodeUint32(&buf, NFS_OK)
@@ -111,6 +114,17 @@ func (h *NFSProcedureHandler) handleLookup(body io.Reader, reply *RPCReply, auth
 	}
 	reply.Data = buf.Bytes()
 	return reply, nil
+}
+
+// refreshDirAttrs replaces the copy of the handle's cached attributes, which
+// is what LOOKUP returns as the directory's post-op attributes, with the
+// object's current attributes when they can be obtained. The cached copy dates
+// from when the handle was issued and goes stale (mode, size, even type) when
+// the object is changed through another handle or the path is reused.
+func (h *NFSProcedureHandler) refreshDirAttrs(node *NFSNode, attrs *NFSAttrs) {
+	if fresh, err := h.server.handler.GetAttr(node); err == nil && fresh != nil {
+		*attrs = *fresh
+	}
 }
 
 // handleReadlink handles NFSPROC3_READLINK - read symbolic link
